@@ -105,8 +105,12 @@ def load_findings(pid):
     "what": "..."}.  Only status=known suppresses; matching is on the specific
     case fields in "match" (all must be equal; a list value means 'one of')."""
     out = []
-    path = os.path.join(VERIF, "known_findings.jsonl")
-    if os.path.exists(path):
+    import glob
+
+    paths = [os.path.join(VERIF, "known_findings.jsonl")] + sorted(glob.glob(os.path.join(VERIF, "known_findings.d", "*.jsonl")))
+    for path in paths:
+        if not os.path.exists(path):
+            continue
         for line in open(path, encoding="utf-8"):
             line = line.strip()
             if not line or line.startswith("#"):
